@@ -76,6 +76,30 @@ func DateOff(n int64) string {
 	return "$T" + itoa(n)
 }
 
+// DateOffFmt renders the offset in one of the three HTTP-date formats a recipient must accept
+// (RFC 9110 §5.6.7): 'T' IMF-fixdate, 'R' RFC 850, 'A' asctime.
+func DateOffFmt(t *rapid.T, label string, n int64) string {
+	f := "T"
+	switch Weighted(t, label+"-datefmt", 84, 8, 8) {
+	case 1:
+		f = "R"
+	case 2:
+		f = "A"
+	}
+	if n >= 0 {
+		return "$" + f + "+" + itoa(n)
+	}
+	return "$" + f + itoa(n)
+}
+
+// PadZeros left-pads a delta-seconds value with zeros now and then (1*DIGIT allows it).
+func PadZeros(t *rapid.T, label, v string) string {
+	if Pct(t, label+"-pad", 8) {
+		return strings.Repeat("0", Pick(t, label+"-padn", 1, 5, 9, 12, 25)) + v
+	}
+	return v
+}
+
 // Hist tracks what the generator knows about the history so far.
 type Hist struct {
 	InPlay []int64 // lifetimes / windows (seconds) mentioned so far
